@@ -649,6 +649,26 @@ pub fn load_defs_file(path: &str) -> (Vec<String>, GDict) {
     (lines, d)
 }
 
+/// every `<avp>` element of a defs file, in document order (including those a later element of the same key replaces)
+pub fn load_defs_elements(path: &str) -> Vec<GDef> {
+    let text = std::fs::read_to_string(path).expect("defs file");
+    let mut out = vec![];
+    for l in text.lines() {
+        let t: Vec<&str> = l.split(' ').collect();
+        if t.len() == 6 && t[0] == "avp" {
+            let tyn = unhex_str(t[5]).unwrap();
+            out.push(GDef {
+                name: unhex_str(t[1]).unwrap(),
+                code: t[2].parse().unwrap(),
+                vendor: if t[3] == "-" { None } else { Some(t[3].parse().unwrap()) },
+                ty: TY_NAMES.iter().position(|x| *x == tyn).unwrap_or(16),
+                m: if t[4] == "~" { false } else { unhex_str(t[4]).unwrap().split(',').any(|x| x == "M") },
+            });
+        }
+    }
+    out
+}
+
 /// a random dictionary: random codes, vendors, type assignment, colliding codes across vendors
 pub fn rand_dict(r: &mut Rng, n: usize) -> GDict {
     let mut d = GDict::default();
@@ -1604,6 +1624,18 @@ fn gen_c07(o: &mut Out, r: &mut Rng, d: &GDict, tier: &str) {
             f.extend(r.bytes(200));
             o.line(&format!("sdec 1 d:{}", hex(&f)));
             o.line(&format!("sdec 2 d:{}", hex(&f)));
+            // ... with the prefix itself arriving in pieces (every split), pauses in between, the data right behind
+            for cuts in [vec![1usize], vec![2], vec![3], vec![1, 2, 3], vec![1, 3]] {
+                let mut ev = vec![];
+                let mut at = 0;
+                for c in cuts.iter().chain([4usize].iter()) {
+                    ev.push(format!("d:{}", hex(&f[at..*c])));
+                    ev.push("p".to_string());
+                    at = *c;
+                }
+                ev.push(format!("d:{}", hex(&f[4..])));
+                o.line(&format!("sdec 1 {}", ev.join(",")));
+            }
         }
     }
 }
@@ -2263,9 +2295,10 @@ fn gen_c15(o: &mut Out, r: &mut Rng, _tier: &str, extra: &[String]) {
                 o.line(&doc_avp_line("G5", 601, Some(5), None, "Grouped"));
                 o.line(&doc_avp_line("G6", 602, Some(6), None, "Grouped"));
                 o.line("doc_end load");
-                for wire in [None, Some(5u32), Some(6u32), Some(7u32)] {
+                for (wire, fl) in [(None, 0x40u8), (Some(5u32), 0x40), (Some(6u32), 0x40), (Some(7u32), 0x40), (None, 0), (Some(5), 0), (Some(6), 0x20), (Some(7), 0)] {
+                    // (with and without the M bit: "optional" is no licence to guess either)
                     let mut m = header(r);
-                    let a = GA { code: 500, vendor: wire, flags: 0x40, v: value_for(r, ty) };
+                    let a = GA { code: 500, vendor: wire, flags: fl, v: value_for(r, ty) };
                     m.avps.push(a.clone());
                     o.line(&format!("dec {}", hex(&m.encode(&mut None))));
                     o.line(&format!("dget 500 {}", vend(wire)));
@@ -2293,6 +2326,14 @@ fn gen_c15(o: &mut Out, r: &mut Rng, _tier: &str, extra: &[String]) {
         o.case(&format!("dictionary {}", p));
         o.line("dreset");
         o.lines(&lines);
+        // "every AVP definition of which loads": each <avp> element of a shipped document, not only the last one per
+        // key, must be live after loading (a later element that re-declares the key differently un-loads the earlier)
+        if !p.contains('+') {
+            for e in load_defs_elements(p) {
+                o.case(&format!("element name={} ty={} m={}", hexd(e.name.as_bytes()), if e.ty < 16 { TY_NAMES[e.ty] } else { "Unknown" }, e.m as u8));
+                o.line(&format!("dget {} {}", e.code, vend(e.vendor)));
+            }
+        }
         for def in &d.defs {
             o.case(&format!("shipped {} {}", def.code, vend(def.vendor)));
             o.line(&format!("dget {} {}", def.code, vend(def.vendor)));
@@ -2560,6 +2601,38 @@ pub fn generate(family: &str, seed: u64, tier: &str, extra: &[String], w: &mut d
                 m.avps.push(if depth == 0 { inner } else { nest(&d0, &mut r, depth, Some(inner)) });
                 let mut ls = vec![];
                 m.ops(&mut r, &mut ls);
+                o.lines(&ls);
+                probes(&mut o);
+            }
+            // repeats: messages and groups drawn from two or three definitions only, so that the same AVP occurs
+            // several times with others in between; built through the API, and decoded from the wire (then extended)
+            for i in 0..(if thorough { 40000 } else { 600 }) {
+                o.case("repeats");
+                let few: Vec<&GDef> = (0..2 + r.below(2)).map(|_| *r.pick(&d0.defs.iter().filter(|x| x.ty < 16).collect::<Vec<_>>())).collect();
+                let mut m = header(&mut r);
+                for _ in 0..2 + r.below(5) {
+                    let def = *r.pick(&few);
+                    let a = if def.ty == T_GROUPED {
+                        let ms: Vec<GA> = (0..r.below(6)).map(|_| { let dd = *r.pick(&few); if dd.ty == T_GROUPED { GA { code: dd.code, vendor: dd.vendor, flags: 0x40, v: GV::Grp(vec![]) } } else { avp_of(&mut r, &d0, dd, 0, 0) } }).collect();
+                        GA { code: def.code, vendor: def.vendor, flags: flags_choice(&mut r), v: GV::Grp(ms) }
+                    } else {
+                        avp_of(&mut r, &d0, def, 0, 0)
+                    };
+                    m.avps.push(a);
+                }
+                if i % 2 == 0 {
+                    o.line(&format!("decode {}", hex(&m.encode(&mut None))));
+                } else {
+                    let mut ls = vec![];
+                    m.ops(&mut r, &mut ls);
+                    o.lines(&ls);
+                }
+                probes(&mut o);
+                // extended afterwards: lookups still answer with the first occurrence
+                let xd = *r.pick(&few);
+                let extra = if xd.ty == T_GROUPED { GA { code: xd.code, vendor: xd.vendor, flags: 0, v: GV::Grp(vec![]) } } else { avp_of(&mut r, &d0, xd, 0, 0) };
+                let mut ls = vec![];
+                extra.ops_add(&mut r, &mut ls);
                 o.lines(&ls);
                 probes(&mut o);
             }
